@@ -687,6 +687,75 @@ def orc_measure_updated(case):
     return None
 
 
+def _spec_transform(tname, par, vectors, n_cond):
+    """what the statement says the transform of these (complete, non-constant) vectors is, by the literal specs above"""
+    v = np.array(vectors, dtype=float)
+    out = np.empty_like(v)
+    if tname == 'rank':
+        for r in range(v.shape[0]):
+            out[r] = _spec_ranks([float(t) for t in v[r]], par or 'average')
+    elif tname in ('sqrt', 'positive'):
+        for idx in np.ndindex(v.shape):
+            x = max(float(v[idx]), 0.0)
+            out[idx] = math.sqrt(x) if tname == 'sqrt' else x
+    elif tname == 'minmax':
+        for r in range(v.shape[0]):
+            lo, hi = min(v[r].tolist()), max(v[r].tolist())
+            out[r] = [(float(t) - lo) / (hi - lo) for t in v[r]]
+    elif tname == 'geotopological':
+        low, up = par if par is not None else (0.25, 0.75)
+        lo, hi = float(np.quantile(v, low)), float(np.quantile(v, up))
+        for idx in np.ndindex(v.shape):
+            x = float(v[idx])
+            out[idx] = 0.0 if x < lo else (1.0 if x > hi else (x - lo) / (hi - lo))
+    elif tname == 'geodesic':
+        for r in range(v.shape[0]):
+            out[r] = _spec_geodesic([float(t) for t in v[r]], n_cond, False)
+    elif tname == 'custom':
+        out = _custom_fun(par or 'affine')(v.copy())
+    else:
+        raise ValueError(tname)
+    return out
+
+
+@oracle('C17/call-sequence')
+def orc_call_sequence(case):
+    """a transform is a function of the RDMs it is given.  case: transform, par, seed, n_rdm, n_cond, measure, desc.
+    Sequence: R1 = t(A); t(B) with B of the same shape, measure and descriptors but other dissimilarities; R2 = t(A again, a
+    fresh equal object).  R1 as held by the caller must not change through the later calls (values, descriptors, measure
+    name), R2 must equal R1 exactly, and all three must be what the statement says (so a result remembered per shape /
+    per descriptors and handed out again is seen on B)."""
+    tname, n_rdm, n_cond = case['transform'], case['n_rdm'], case['n_cond']
+    par = case.get('par')
+    if isinstance(par, list):
+        par = tuple(par)
+    measure, kind = case.get('measure'), case.get('desc', 'none')
+    va = _generic_vectors(n_rdm, n_cond, case['seed'])
+    vb = _generic_vectors(n_rdm, n_cond, case['seed'] + 1000)[:, ::-1].copy()
+    vb[:, 0], vb[:, 1] = -2.5, 6.5
+    if np.array_equal(va, vb):
+        return 'CASE INVALID: the two contents are equal'
+    r1 = _apply(tname, _mk(va, measure, kind), par)
+    held = np.array(r1.get_vectors(), dtype=float).copy()
+    rb = _apply(tname, _mk(vb, measure, kind), par)
+    r2 = _apply(tname, _mk(va, measure, kind), par)
+    d = _vec_diff(r1.get_vectors(), held, 0.0)
+    if d:
+        return f'{tname}: the result held by the caller changed when the transform was called again on other / equal RDMs: {d}'
+    for nm, obj in (('first result, after the later calls', r1), ('result for the other content', rb), ('second result', r2)):
+        msg = _check_meta(obj, tname, measure, kind, n_rdm, n_cond)
+        if msg:
+            return f'{nm}: {msg}'
+    d = _vec_diff(r2.get_vectors(), held, 0.0)
+    if d:
+        return f'{tname}: the same call on equal RDMs gave a different result the second time: {d}'
+    for nm, obj, v in (('first call', r1, va), ('call on other dissimilarities of the same shape', rb, vb)):
+        d = _vec_diff(obj.get_vectors(), _spec_transform(tname, par, v, n_cond), 1e-12)
+        if d:
+            return f'{tname}, {nm}: input {v.tolist()} -> {np.asarray(obj.get_vectors()).tolist()}: {d}'
+    return None
+
+
 # =====================================================================================================================
 # invariance of the measures
 # =====================================================================================================================
@@ -730,9 +799,12 @@ def _spec_sim(method, x, y):
     raise ValueError(method)
 
 
-def _monotone(name, v):
-    """a strictly increasing map applied to a vector array; 'lib:*' = a library transform -> returns an RDMs object"""
+def _monotone(name, v, dtype=None):
+    """a strictly increasing map applied to a vector array; 'lib:*' = a library transform -> returns an RDMs object.
+    dtype: the library transform is handed the dissimilarities in that dtype (typed sweep: only 'id' and 'lib:*' maps)"""
     T = _T()
+    if dtype is not None and name != 'id' and not name.startswith('lib:'):
+        raise CaseInvalid('typed data only go through library transforms')
     if name == 'id':
         return v.copy()
     if name.startswith('scale:'):
@@ -752,15 +824,17 @@ def _monotone(name, v):
     if name == 'sqrt':
         return np.sqrt(v)
     if name == 'lib:sqrt':
-        return T.sqrt_transform(_mk(v, 'squared euclidean'))
+        return T.sqrt_transform(_mk(v, 'squared euclidean', dtype=dtype))
     if name == 'lib:positive':
-        return T.positive_transform(_mk(v, 'crossnobis'))
+        return T.positive_transform(_mk(v, 'crossnobis', dtype=dtype))
     if name == 'lib:minmax':
-        return T.minmax_transform(_mk(v))
+        return T.minmax_transform(_mk(v, dtype=dtype))
     if name == 'lib:cbrt':
-        return T.transform(_mk(v), np.cbrt)
+        return T.transform(_mk(v, dtype=dtype), np.cbrt)
+    if name == 'lib:affine':
+        return T.transform(_mk(v, dtype=dtype), lambda x: 0.37 * x + 11.0)
     if name.startswith('lib:rank-'):
-        return T.rank_transform(_mk(v), method=name[9:])
+        return T.rank_transform(_mk(v, dtype=dtype), method=name[9:])
     raise ValueError(name)
 
 
@@ -819,16 +893,27 @@ def _sim_data(case):
         pos = rs.permutation(n)[:k]
         a[:, pos] = NAN
         b[:, pos] = NAN
+    dtype = case.get('dtype')
+    if dtype is not None:       # typed sweep: the same orders and ties on values the dtype can hold
+        if np.dtype(dtype).kind in 'iu':
+            if kind not in ('lattice', 'nonneg', 'distinct'):
+                raise CaseInvalid('kind %s has no integer form' % kind)
+            mult = {'lattice': 2.0, 'nonneg': 4.0, 'distinct': float(n)}[kind]
+            off = {'lattice': 6.0 if np.dtype(dtype).kind == 'u' else 0.0, 'nonneg': 0.0, 'distinct': -0.25 * n}[kind]
+            a, b = a * mult + off, b * mult + off
+        a, b = _values(a, dtype), _values(b, dtype)
     return a, b
 
 
 @oracle('C17/rank-invariance')
 def orc_rank_invariance(case):
-    """case: seed, n_cond, n_rdm [n1,n2], kind, n_nan, f, g (names of strictly increasing maps), method"""
+    """case: seed, n_cond, n_rdm [n1,n2], kind, n_nan, f, g (names of strictly increasing maps), method; optional dtype (the
+    dissimilarities of both stacks are handed to compare / to the library transforms in that dtype)"""
     from rsatoolbox.rdm import compare
     a, b = _sim_data(case)
     method = case['method']
-    fa, gb = _monotone(case['f'], a.copy()), _monotone(case['g'], b.copy())
+    dtype = case.get('dtype')
+    fa, gb = _monotone(case['f'], a.copy(), dtype), _monotone(case['g'], b.copy(), dtype)
     for src, img, nm in ((a, _vec_of(fa), case['f']), (b, _vec_of(gb), case['g'])):
         for r in range(src.shape[0]):
             if not _same_weak_order([float(t) for t in src[r]], [float(t) for t in img[r]]):
@@ -839,18 +924,19 @@ def orc_rank_invariance(case):
         for j in range(b.shape[0]):
             keep = [k for k in range(a.shape[1]) if not math.isnan(a[i, k])]
             want[i, j] = _spec_sim(method, [float(a[i, k]) for k in keep], [float(b[j, k]) for k in keep])
-    before = compare(_mk(a), _mk(b), method=method)
-    fa_obj = fa if not isinstance(fa, np.ndarray) else _mk(fa)
-    gb_obj = gb if not isinstance(gb, np.ndarray) else _mk(gb)
+    before = compare(_mk(a, dtype=dtype), _mk(b, dtype=dtype), method=method)
+    fa_obj = fa if not isinstance(fa, np.ndarray) else _mk(fa, dtype=dtype)
+    gb_obj = gb if not isinstance(gb, np.ndarray) else _mk(gb, dtype=dtype)
     after = compare(fa_obj, gb_obj, method=method)
-    d = _vec_diff(after, before, 1e-10)
+    tol = _tol(dtype, 1e-10)      # float32 / narrow integer stacks: the measures may work in single precision
+    d = _vec_diff(after, before, tol)
     if d:
         return (f'{method}: value changed under strictly increasing maps f={case["f"]} (first stack), g={case["g"]} (second): '
                 f'before {np.asarray(before).tolist()}, after {np.asarray(after).tolist()} ({d})')
-    d = _vec_diff(before, want, 1e-10)
+    d = _vec_diff(before, want, tol)
     if d:
         return f'{method} of the untransformed stacks {np.asarray(before).tolist()} differs from the pair/rank-counted value {want.tolist()} ({d})'
-    d = _vec_diff(after, want, 1e-10)
+    d = _vec_diff(after, want, tol)
     if d:
         return f'{method} after f={case["f"]}, g={case["g"]}: {np.asarray(after).tolist()} differs from the pair/rank-counted value {want.tolist()} ({d})'
     return None
@@ -870,7 +956,8 @@ def _sigma(case, n_cond):
 @oracle('C17/scale-affine-invariance')
 def orc_scale_affine(case):
     """case: seed, n_cond, n_rdm [n1,n2], method, sigma (none/vector/matrix), a1, b1, a2, b2, via (array / lib), n_nan.
-    cosine-type: x -> a*x (b must be 0); correlation-type: x -> a*x + b; a > 0"""
+    cosine-type: x -> a*x (b must be 0); correlation-type: x -> a*x + b; a > 0.  Optional dtype: both stacks are handed over in
+    that dtype (integer dtypes: integer values in -10..40 / 0..50, and with via = array the maps must keep them integers in range)"""
     T = _T()
     from rsatoolbox.rdm import compare
     rs = np.random.RandomState(case['seed'])
@@ -888,6 +975,12 @@ def orc_scale_affine(case):
         pos = rs.permutation(n)[:k]
         a[:, pos] = NAN
         b[:, pos] = NAN
+    dtype = case.get('dtype')
+    if dtype is not None:
+        if np.dtype(dtype).kind in 'iu':
+            off = 1.0 if np.dtype(dtype).kind == 'u' else 0.0
+            a, b = (a + off) * 10.0, (b + off) * 10.0
+        a, b = _values(a, dtype), _values(b, dtype)
     a1, b1, a2, b2 = case['a1'], case['b1'], case['a2'], case['b2']
     if not (a1 > 0 and a2 > 0):
         return 'CASE INVALID: scaling must be positive'
@@ -895,14 +988,19 @@ def orc_scale_affine(case):
         return 'CASE INVALID: cosine-type measures are only claimed invariant under scaling'
     sigma = _sigma(case, n_cond)
     kw = {} if not method.endswith('_cov') else dict(sigma_k=sigma)
-    before = compare(_mk(a), _mk(b), method=method, **kw)
+    before = compare(_mk(a, dtype=dtype), _mk(b, dtype=dtype), method=method, **kw)
     if case.get('via') == 'lib':
-        ta = T.transform(_mk(a, 'crossnobis', 'lists'), lambda v: a1 * v + b1)
-        tb = T.transform(_mk(b, None, 'arrays'), lambda v: a2 * v + b2)
+        ta = T.transform(_mk(a, 'crossnobis', 'lists', dtype=dtype), lambda v: a1 * v + b1)
+        tb = T.transform(_mk(b, None, 'arrays', dtype=dtype), lambda v: a2 * v + b2)
     else:
-        ta, tb = _mk(a1 * a + b1), _mk(a2 * b + b2)
+        if dtype is not None:    # the images have to be representable as well
+            for img in (a1 * a + b1, a2 * b + b2):
+                if not np.array_equal(_values(img, dtype), img):
+                    return 'CASE INVALID: image of the map not representable in ' + dtype
+        ta, tb = _mk(a1 * a + b1, dtype=dtype), _mk(a2 * b + b2, dtype=dtype)
     after = compare(ta, tb, method=method, **kw)
     tol = 1e-5 if case.get('sigma') in ('matrix', 'vector') else 1e-9   # a given sigma_k goes through the conjugate-gradient solve
+    tol = max(tol, _tol(dtype, 0.0))
     d = _vec_diff(after, before, tol)
     if d:
         return (f'{method} (sigma_k {case.get("sigma", "none")}): value changed under x -> {a1}*x+{b1} (first stack), '
@@ -918,7 +1016,7 @@ def orc_scale_affine(case):
                     x, y = x - x.sum() / len(x), y - y.sum() / len(y)
                 want[i, j] = float(np.dot(x, y)) / math.sqrt(float(np.dot(x, x)) * float(np.dot(y, y)))
         for nm, val in (('before', before), ('after', after)):
-            d = _vec_diff(val, want, 1e-9)
+            d = _vec_diff(val, want, _tol(dtype, 1e-9))
             if d:
                 return f'{method} {nm} the maps {np.asarray(val).tolist()} differs from the textbook value {want.tolist()} ({d})'
     return None
@@ -927,7 +1025,8 @@ def orc_scale_affine(case):
 @oracle('C17/evaluation')
 def orc_evaluation(case):
     """a rank-based evaluation (inference.eval_fixed of fixed models) does not change when the data RDMs and / or the model
-    RDMs go through a strictly increasing library transform; case: seed, n_cond, n_rdm, kind, method, f (data), g (models)"""
+    RDMs go through a strictly increasing library transform; case: seed, n_cond, n_rdm, kind, method, f (data), g (models);
+    optional dtype (data and model RDMs handed over in that dtype)"""
     import warnings
     from rsatoolbox.model import ModelFixed
     from rsatoolbox.inference import eval_fixed
@@ -936,26 +1035,116 @@ def orc_evaluation(case):
     data, mods = _sim_data(sub)
     method = case['method']
 
-    def run(dv, mv):
-        d_obj = dv if not isinstance(dv, np.ndarray) else _mk(dv)
+    dtype = case.get('dtype')
+
+    def run(dv, mv, typed_models):
+        d_obj = dv if not isinstance(dv, np.ndarray) else _mk(dv, dtype=dtype)
         mv = _vec_of(mv)
-        models = [ModelFixed('m%d' % i, _mk(mv[i:i + 1])) for i in range(mv.shape[0])]
+        models = [ModelFixed('m%d' % i, _mk(mv[i:i + 1], dtype=dtype if typed_models else None)) for i in range(mv.shape[0])]
         with warnings.catch_warnings():
             warnings.simplefilter('ignore')
             return np.asarray(eval_fixed(models, d_obj, method=method).evaluations, dtype=float)
-    before = run(data.copy(), mods.copy())
-    after = run(_monotone(case['f'], data.copy()), _monotone(case['g'], mods.copy()))
+    before = run(data.copy(), mods.copy(), True)
+    after = run(_monotone(case['f'], data.copy(), dtype), _monotone(case['g'], mods.copy(), dtype), case['g'] == 'id')
     want = np.empty((1, mods.shape[0], data.shape[0]))
     for m in range(mods.shape[0]):
         for r in range(data.shape[0]):
             want[0, m, r] = _spec_sim(method, [float(t) for t in mods[m]], [float(t) for t in data[r]])
-    d = _vec_diff(after, before, 1e-10)
+    d = _vec_diff(after, before, _tol(dtype, 1e-10))
     if d:
         return (f'eval_fixed(method={method}): evaluations changed when data went through {case["f"]} and models through '
                 f'{case["g"]}: before {before.tolist()}, after {after.tolist()} ({d})')
-    d = _vec_diff(after, want, 1e-10)
+    d = _vec_diff(after, want, _tol(dtype, 1e-10))
     if d:
         return f'eval_fixed(method={method}) after the transforms {after.tolist()} differs from the pair/rank-counted {want.tolist()} ({d})'
+    return None
+
+
+def _spec_any(method, x, y):
+    """rank-based measures by counting, cosine / corr by np.dot on complete vectors"""
+    if method in RANK_SIMS:
+        return _spec_sim(method, x, y)
+    x, y = np.array(x, dtype=float), np.array(y, dtype=float)
+    if method == 'corr':
+        x, y = x - x.sum() / len(x), y - y.sum() / len(y)
+    return float(np.dot(x, y)) / math.sqrt(float(np.dot(x, x)) * float(np.dot(y, y)))
+
+
+@oracle('C17/compare-call-sequence')
+def orc_compare_sequence(case):
+    """the measures are functions of the two stacks.  case: method, seed, n_cond, n_rdm [n1,n2], kind.  S1 = compare(A, B);
+    compare(A', B') with stacks of the same shape but other content; S2 = compare(A, B) on fresh equal objects: S1 as held by the
+    caller is unchanged, S2 == S1 exactly, and S1 and the value for (A', B') are the counted / textbook values."""
+    from rsatoolbox.rdm import compare
+    method = case['method']
+    a, b = _sim_data(case)
+    other = dict(case)
+    other['seed'] = case['seed'] + 500
+    a2, b2 = _sim_data(other)
+    if np.array_equal(a, a2) or np.array_equal(b, b2):
+        return 'CASE INVALID: the two contents are equal'
+    s1 = compare(_mk(a), _mk(b), method=method)
+    held = np.array(s1, dtype=float).copy()
+    smid = compare(_mk(a2), _mk(b2), method=method)
+    s2 = compare(_mk(a), _mk(b), method=method)
+    d = _vec_diff(s1, held, 0.0)
+    if d:
+        return f'{method}: the similarity matrix held by the caller changed when compare was called again: {d}'
+    d = _vec_diff(s2, held, 0.0)
+    if d:
+        return f'{method}: the same comparison gave a different result the second time: {d}'
+    for nm, val, (x, y) in (('first call', s1, (a, b)), ('call on other stacks of the same shape', smid, (a2, b2))):
+        want = np.empty((x.shape[0], y.shape[0]))
+        for i in range(x.shape[0]):
+            for j in range(y.shape[0]):
+                want[i, j] = _spec_any(method, [float(t) for t in x[i]], [float(t) for t in y[j]])
+        d = _vec_diff(val, want, 1e-10)
+        if d:
+            return f'{method}, {nm}: {np.asarray(val).tolist()} instead of the counted / textbook value {want.tolist()} ({d})'
+    return None
+
+
+# =====================================================================================================================
+# C17/hashseed: the clauses in a new interpreter with another PYTHONHASHSEED
+# =====================================================================================================================
+_CHILD = r"""
+import json, sys, warnings
+warnings.simplefilter('ignore')
+import contracts.C17_c  # noqa: registers the oracles
+from vf.rt.harness import ORACLES
+out = []
+for name, case in json.load(sys.stdin):
+    try:
+        r = ORACLES[name](case)
+    except Exception as e:
+        r = 'exception %s: %s' % (type(e).__name__, e)
+    out.append(r)
+print('C17-CHILD-RESULT ' + json.dumps(out))
+"""
+
+
+@oracle('C17/hashseed')
+def orc_hashseed(case):
+    """runs the oracles of case['batch'] = [[oracle name, case], ...] in a new interpreter started with
+    PYTHONHASHSEED = case['hashseed'] (same library, same sys.path); every one of them must hold there too (the expected values
+    are definite numbers, so this is the statement "the result does not depend on the hash seed")"""
+    import json
+    import os
+    import subprocess
+    import sys
+    env = dict(os.environ)
+    env['PYTHONHASHSEED'] = str(case['hashseed'])
+    env['PYTHONPATH'] = os.pathsep.join(q for q in sys.path if q)
+    env['PYTHONDONTWRITEBYTECODE'] = '1'
+    proc = subprocess.run([sys.executable, '-c', _CHILD], input=json.dumps(case['batch']), capture_output=True, text=True,
+                          env=env, timeout=600)
+    line = [ln for ln in proc.stdout.splitlines() if ln.startswith('C17-CHILD-RESULT ')]
+    if proc.returncode != 0 or not line:
+        return f'interpreter with PYTHONHASHSEED={case["hashseed"]} failed (exit {proc.returncode}): {proc.stderr.strip()[-400:]}'
+    results = json.loads(line[-1][len('C17-CHILD-RESULT '):])
+    for (name, sub), r in zip(case['batch'], results):
+        if r is not None:
+            return f'with PYTHONHASHSEED={case["hashseed"]}: {name} on {json.dumps(sub)[:300]}: {r}'
     return None
 
 
@@ -1266,6 +1455,488 @@ def tier_c(run, thorough):
                     i += 1
                     bd.check(orc_evaluation, dict(seed=i % 4, n_cond=4 + i % 2, n_rdm=2 + i % 2, kind=kind, method=method, f=ff, g=gg),
                              f'{method},{kind}', function='eval_fixed')
+    bd.done()
+    bds.append(bd)
+    bds.extend(_sweeps(run, thorough))
+    return bds
+
+
+# =====================================================================================================================
+# dimension sweeps: typed data, units, containers, sizes, call sequences, hash seed
+# =====================================================================================================================
+OB_RANK = 'C17/rank_transform/oracle/ranks-among-non-missing'
+OB_ELEM = 'C17/sqrt_transform,positive_transform/oracle/elementwise-map'
+OB_MINMAX = 'C17/minmax_transform/oracle/affine-increasing-onto-unit-interval'
+OB_GEOTOP = 'C17/geotopological_transform/oracle/clipped-linear-between-quantiles'
+OB_GEOD = 'C17/geodesic_transform/oracle/shortest-paths-without-maximal-edges'
+OB_CUSTOM = 'C17/transform/oracle/applies-function-to-vectors'
+OB_META = 'C17/rdm.transform/oracle/descriptors-and-measure-name'
+OB_RANKINV = 'C17/compare/oracle/rank-measures-invariant-under-increasing-maps'
+OB_SCALE = 'C17/compare/oracle/cosine-scaling-correlation-affine'
+OB_EVAL = 'C17/eval_fixed/oracle/rank-based-evaluation-invariant'
+OB_SEQ = 'C17/rdm.transform/oracle/function-of-its-input-over-call-sequences'
+OB_CSEQ = 'C17/compare/oracle/function-of-its-input-over-call-sequences'
+OB_HASH = 'C17/rdm.transform,compare/oracle/independent-of-hash-seed'
+ALL_KINDS = DESC_KINDS + DESC_KINDS_X
+SCALES = (1e-26, 1e-12, 1e6, 1e12)
+# legitimate units: pure scalings, and offsets that are large against the spread (in the unit of the case)
+UNITS = [dict(scale=sc) for sc in SCALES] + [dict(scale=1e-20, shift=3e-18), dict(scale=1.0, shift=1e9), dict(scale=1e8, shift=-4e11)]
+
+
+def _utag(u):
+    return 'unit:x%g%+g' % (u.get('scale', 1.0), u.get('shift', 0.0))
+
+
+def _sweeps(run, thorough):
+    bds = []
+    rows3 = _rows_with_missing(3, 2)
+    wo6 = _weak_orders(6)
+    nc3 = [r for r in _weak_orders(3) if max(r) > 0]
+    nc6 = [r for r in wo6 if max(r) > 0]
+    k_enum = 60 if thorough else 10          # enumerated stacks (of 3 RDMs) per dtype / unit
+    n_big = 8 if thorough else 2
+
+    # ---- rank_transform ------------------------------------------------------------------------------------------
+    bd = Bounded(run, 'C17/rank-sweeps', OB_RANK,
+                 'typed: %d stacks of 3 complete RDMs (weak orders of 6 entries, integer palettes) per dtype of %s, float32 also the '
+                 '9 stacks of 3-entry rows with missing entries; units: the same + with-missing stacks under x -> s*x+t for %s; '
+                 'sizes: 2 conditions (a single pair; 1-3 RDMs) and %d seeded stacks of 8 x 12 / 12 x 9 (RDMs x conditions); tie '
+                 'methods and the 6 descriptor kinds (incl. tuples, 2-D) rotated'
+                 % (k_enum, list(TYPED), [_utag(u) for u in UNITS], n_big), function='rank_transform')
+    i = 0
+    for dt in TYPED:
+        for st in _stacks(wo6, 3, 41)[:k_enum] + (_stacks(rows3, 3, 43) if dt == 'float32' else []):
+            i += 1
+            bd.check(orc_rank, dict(n_cond=4 if len(st[0]) == 6 else 3, rows=st, method=(RANK_METHODS + (None,))[i % 6],
+                                    measure=MEASURES[i % len(MEASURES)], desc=ALL_KINDS[i % len(ALL_KINDS)], dtype=dt),
+                     'typed:' + dt, function='rank_transform')
+    for u in UNITS:
+        for st in _stacks(wo6, 3, 47)[:k_enum] + _stacks(rows3, 3, 43):
+            i += 1
+            bd.check(orc_rank, dict(n_cond=4 if len(st[0]) == 6 else 3, rows=st, method=(RANK_METHODS + (None,))[i % 6],
+                                    measure=MEASURES[i % len(MEASURES)], desc=ALL_KINDS[i % len(ALL_KINDS)], **u),
+                     _utag(u), function='rank_transform')
+    for n_rdm in (1, 2, 3):
+        for method in RANK_METHODS + (None,):
+            i += 1
+            bd.check(orc_rank, dict(n_cond=2, rows=[[0]] * n_rdm, method=method, measure=MEASURES[i % len(MEASURES)],
+                                    desc=ALL_KINDS[i % len(ALL_KINDS)]), 'size:single-pair', function='rank_transform')
+    for seed in range(n_big):
+        n_cond, n_rdm = ((12, 8), (9, 12))[seed % 2]
+        for method in RANK_METHODS:
+            i += 1
+            bd.check(orc_rank, dict(n_cond=n_cond, rows=_seeded_rows(1000 + seed, n_cond, n_rdm), method=method,
+                                    measure=MEASURES[i % len(MEASURES)], desc=ALL_KINDS[i % len(ALL_KINDS)]),
+                     'size:large', function='rank_transform')
+    bd.done()
+    bds.append(bd)
+
+    # ---- sqrt / positive -----------------------------------------------------------------------------------------
+    bd = Bounded(run, 'C17/elementwise-sweeps', OB_ELEM,
+                 'sqrt and positive; typed: %d stacks of 3 complete RDMs per dtype of %s (sqrt: int16 and wider, float32; single '
+                 'precision suffices below 32 bit), float32 also with missing entries; units: x -> s*x+t for %s, judged relative '
+                 'to the value itself; sizes: 2 conditions and %d seeded stacks of 8 x 12 / 12 x 9'
+                 % (k_enum, list(TYPED), [_utag(u) for u in UNITS], n_big), function='sqrt_transform')
+    i = 0
+    for dt in TYPED:
+        for st in _stacks(wo6, 3, 59)[:k_enum] + (_stacks(rows3, 3, 43) if dt == 'float32' else []):
+            for which in ('sqrt', 'positive'):
+                if which == 'sqrt' and dt in ('int8', 'uint8'):
+                    continue        # see pending triage below
+                i += 1
+                bd.check(orc_elementwise, dict(which=which, n_cond=4 if len(st[0]) == 6 else 3, rows=st, dtype=dt,
+                                               measure=MEASURES[i % len(MEASURES)], desc=ALL_KINDS[i % len(ALL_KINDS)]),
+                         which + ',typed:' + dt, function=which + '_transform')
+    if False:  # pending triage: sqrt,8-bit-integer-typed
+        for dt in ('int8', 'uint8'):
+            for st in _stacks(wo6, 3, 59)[:k_enum]:
+                i += 1
+                bd.check(orc_elementwise, dict(which='sqrt', n_cond=4, rows=st, dtype=dt, measure=MEASURES[i % len(MEASURES)],
+                                               desc=ALL_KINDS[i % len(ALL_KINDS)]),
+                         'sqrt,8-bit-integer-typed', function='sqrt_transform')
+    for u in UNITS:
+        for st in _stacks(wo6, 3, 61)[:k_enum] + _stacks(rows3, 3, 43):
+            for which in ('sqrt', 'positive'):
+                i += 1
+                bd.check(orc_elementwise, dict(which=which, n_cond=4 if len(st[0]) == 6 else 3, rows=st,
+                                               measure=MEASURES[i % len(MEASURES)], desc=ALL_KINDS[i % len(ALL_KINDS)], **u),
+                         which + ',' + _utag(u), function=which + '_transform')
+    for which in ('sqrt', 'positive'):
+        for n_rdm in (1, 2, 3):
+            for lev in (0, 4, None):
+                i += 1
+                rows = [[lev]] * n_rdm if lev is not None else [[None]] + [[3]] * (n_rdm - 1)
+                bd.check(orc_elementwise, dict(which=which, n_cond=2, rows=rows, measure=MEASURES[i % len(MEASURES)],
+                                               desc=ALL_KINDS[i % len(ALL_KINDS)]), which + ',size:single-pair',
+                         function=which + '_transform')
+        for seed in range(n_big):
+            n_cond, n_rdm = ((12, 8), (9, 12))[seed % 2]
+            i += 1
+            bd.check(orc_elementwise, dict(which=which, n_cond=n_cond, rows=_seeded_rows(2000 + seed, n_cond, n_rdm),
+                                           measure=MEASURES[i % len(MEASURES)], desc=ALL_KINDS[i % len(ALL_KINDS)]),
+                     which + ',size:large', function=which + '_transform')
+    bd.done()
+    bds.append(bd)
+
+    # ---- minmax --------------------------------------------------------------------------------------------------
+    bd = Bounded(run, 'C17/minmax-sweeps', OB_MINMAX,
+                 'typed: float32 on %d enumerated stacks + all 3-entry orders + %d seeded stacks (integer dtypes: pending triage); '
+                 'units: x -> s*x+t for %s on %d enumerated + %d seeded stacks each; sizes: %d seeded stacks of 6 x 10 / 10 x 15 '
+                 '(RDMs x conditions); 6 descriptor kinds rotated'
+                 % (k_enum, 3 * n_big, [_utag(u) for u in UNITS], k_enum, 2 * n_big, n_big), function='minmax_transform')
+    i = 0
+
+    def minmax_typed(dts_enum, dts_seeded, label):
+        j = 0
+        for dt in dts_enum:
+            for st in _stacks(nc6, 3, 53)[:k_enum] + _stacks(nc3, 3, 53):
+                j += 1
+                bd.check(orc_minmax, dict(n_cond=4 if len(st[0]) == 6 else 3, rows=st, dtype=dt, measure=MEASURES[j % len(MEASURES)],
+                                          desc=ALL_KINDS[j % len(ALL_KINDS)]), label(dt), function='minmax_transform')
+        for dt in dts_seeded:
+            for seed in range(3 * n_big):
+                j += 1
+                bd.check(orc_minmax, dict(seed=300 + seed, n_rdm=1 + seed % 4, n_cond=3 + seed % 5, ties=bool(seed % 2), dtype=dt,
+                                          measure=MEASURES[j % len(MEASURES)], desc=ALL_KINDS[j % len(ALL_KINDS)]),
+                         label(dt), function='minmax_transform')
+    minmax_typed(('float32',), ('float32',), lambda dt: 'typed:' + dt)
+    if False:  # pending triage: integer-typed
+        minmax_typed(INT_DTYPES, ('int16', 'int32', 'int64'), lambda dt: 'integer-typed')
+    for u in UNITS:
+        for st in _stacks(nc6, 3, 67)[:k_enum]:
+            i += 1
+            bd.check(orc_minmax, dict(n_cond=4, rows=st, measure=MEASURES[i % len(MEASURES)], desc=ALL_KINDS[i % len(ALL_KINDS)], **u),
+                     _utag(u), function='minmax_transform')
+        for seed in range(2 * n_big):
+            i += 1
+            bd.check(orc_minmax, dict(seed=400 + seed, n_rdm=1 + seed % 4, n_cond=3 + seed % 5, ties=bool(seed % 2),
+                                      measure=MEASURES[i % len(MEASURES)], desc=ALL_KINDS[i % len(ALL_KINDS)], **u),
+                     _utag(u), function='minmax_transform')
+    for seed in range(n_big):
+        n_rdm, n_cond = ((6, 10), (10, 15))[seed % 2]
+        i += 1
+        bd.check(orc_minmax, dict(seed=500 + seed, n_rdm=n_rdm, n_cond=n_cond, ties=bool((seed // 2) % 2),
+                                  measure=MEASURES[i % len(MEASURES)], desc=ALL_KINDS[i % len(ALL_KINDS)]),
+                 'size:large', function='minmax_transform')
+    bd.done()
+    bds.append(bd)
+
+    # ---- geotopological ------------------------------------------------------------------------------------------
+    pairs5 = ((0.1, 0.9), (0.25, 0.75), (0.0, 1.0), (0.0, 0.5), (0.5, 1.0))
+    typed_geo = (('values>=1', ('uint8', 'int16', 'int32', 'float32'), 1.0),
+                 ('has-negatives', ('int8', 'int16', 'int64', 'float32'), 20.0),
+                 ('nonneg-below-1', ('uint8', 'uint16', 'float32'), 100.0))
+    n_seed = 4 if thorough else 1
+    bd = Bounded(run, 'C17/geotopological-sweeps', OB_GEOTOP,
+                 'the three kinds of the main domain, %d seed(s), with / without ties, quantile pairs %s with distinct thresholds; '
+                 'typed: values x 1 / 20 / 100 rounded into %s; units: x -> s*x for %s; quantiles handed over as int (0, 1), '
+                 'np.float64, np.float32, 0-d array; sizes: stacks of 3-6 RDMs of 2 conditions (one pair each), 6 x 12'
+                 % (n_seed, list(pairs5), [list(t[1]) for t in typed_geo], list(SCALES)), function='geotopological_transform')
+    i = 0
+    for kind, dts, mult in typed_geo:
+        for dt in dts:
+            for seed in range(n_seed):
+                for ties in (False, True):
+                    for low, up in pairs5:
+                        i += 1
+                        case = dict(seed=seed, n_rdm=1 + (seed + i) % 3, n_cond=4 + (seed + i) % 4, kind=kind, ties=ties, low=low,
+                                    up=up, dtype=dt, measure=MEASURES[i % len(MEASURES)], desc=ALL_KINDS[i % len(ALL_KINDS)])
+                        if mult != 1.0 and np.dtype(dt).kind in 'iu':
+                            case['scale'] = mult
+                        if geotop_valid(case):
+                            bd.check(orc_geotopological, case, kind + ',typed:' + dt, function='geotopological_transform')
+    for kind in ('values>=1', 'nonneg-below-1', 'has-negatives'):
+        for sc in SCALES:
+            for seed in range(n_seed):
+                for low, up in pairs5:
+                    i += 1
+                    case = dict(seed=seed, n_rdm=1 + (seed + i) % 3, n_cond=4 + (seed + i) % 4, kind=kind, ties=bool(i % 2), low=low,
+                                up=up, scale=sc, measure=MEASURES[i % len(MEASURES)], desc=ALL_KINDS[i % len(ALL_KINDS)])
+                    if geotop_valid(case):
+                        bd.check(orc_geotopological, case, kind + ',unit:x%g' % sc, function='geotopological_transform')
+        for qtype, pairs in (('int', ((0, 1),)), ('np.float64', pairs5), ('np.float32', ((0.25, 0.75), (0.0, 0.5), (0.5, 1.0))),
+                             ('array0d', pairs5)):
+            for low, up in pairs:
+                i += 1
+                case = dict(seed=7, n_rdm=1 + i % 3, n_cond=4 + i % 4, kind=kind, ties=bool(i % 2), low=low, up=up, qtype=qtype,
+                            measure=MEASURES[i % len(MEASURES)], desc=ALL_KINDS[i % len(ALL_KINDS)])
+                if geotop_valid(case):
+                    bd.check(orc_geotopological, case, kind + ',quantiles-as:' + qtype, function='geotopological_transform')
+        for n_rdm, n_cond in ((3, 2), (4, 2), (6, 2), (6, 12)):
+            for low, up in pairs5:
+                i += 1
+                case = dict(seed=11, n_rdm=n_rdm, n_cond=n_cond, kind=kind, ties=bool(i % 2), low=low, up=up,
+                            measure=MEASURES[i % len(MEASURES)], desc=ALL_KINDS[i % len(ALL_KINDS)])
+                if geotop_valid(case):
+                    bd.check(orc_geotopological, case, kind + (',size:single-pair' if n_cond == 2 else ',size:large'),
+                             function='geotopological_transform')
+    bd.done()
+    bds.append(bd)
+
+    # ---- geodesic ------------------------------------------------------------------------------------------------
+    bd = Bounded(run, 'C17/geodesic-sweeps', OB_GEOD,
+                 'typed: float32 on %d enumerated stacks + all 3-entry orders + %d seeded stacks (integer dtypes: pending triage); '
+                 'units: x -> s*x+t for %s on %d enumerated + %d seeded stacks each; sizes: %d seeded stacks of 4 x 10 / 3 x 12'
+                 % (k_enum, 3 * n_big, [_utag(u) for u in UNITS], k_enum, n_big, n_big), function='geodesic_transform')
+    i = 0
+
+    def geodesic_typed(dts_enum, dts_seeded, label):
+        j = 0
+        for dt in dts_enum:
+            for st in _stacks(nc6, 3, 71)[:k_enum] + _stacks(nc3, 3, 71):
+                j += 1
+                bd.check(orc_geodesic, dict(n_cond=4 if len(st[0]) == 6 else 3, rows=st, dtype=dt, measure=MEASURES[j % len(MEASURES)],
+                                            desc=ALL_KINDS[j % len(ALL_KINDS)]), label(dt), function='geodesic_transform')
+        for dt in dts_seeded:
+            for seed in range(3 * n_big):
+                j += 1
+                bd.check(orc_geodesic, dict(seed=600 + seed, n_rdm=1 + seed % 3, n_cond=3 + seed % 6, ties=bool(seed % 2), dtype=dt,
+                                            measure=MEASURES[j % len(MEASURES)], desc=ALL_KINDS[j % len(ALL_KINDS)]),
+                         label(dt), function='geodesic_transform')
+    geodesic_typed(('float32',), ('float32',), lambda dt: 'typed:' + dt)
+    if False:  # pending triage: integer-typed
+        geodesic_typed(INT_DTYPES, ('int8', 'int16', 'int64'), lambda dt: 'integer-typed')
+    for u in UNITS:
+        for st in _stacks(nc6, 3, 73)[:k_enum]:
+            i += 1
+            bd.check(orc_geodesic, dict(n_cond=4, rows=st, measure=MEASURES[i % len(MEASURES)], desc=ALL_KINDS[i % len(ALL_KINDS)], **u),
+                     _utag(u), function='geodesic_transform')
+        for seed in range(n_big):
+            i += 1
+            bd.check(orc_geodesic, dict(seed=700 + seed, n_rdm=1 + seed % 3, n_cond=4 + seed % 5, ties=bool(seed % 2),
+                                        measure=MEASURES[i % len(MEASURES)], desc=ALL_KINDS[i % len(ALL_KINDS)], **u),
+                     _utag(u), function='geodesic_transform')
+    for seed in range(n_big):
+        n_rdm, n_cond = ((4, 10), (3, 12))[seed % 2]
+        i += 1
+        bd.check(orc_geodesic, dict(seed=800 + seed, n_rdm=n_rdm, n_cond=n_cond, ties=bool((seed // 2) % 2),
+                                    measure=MEASURES[i % len(MEASURES)], desc=ALL_KINDS[i % len(ALL_KINDS)]),
+                 'size:large', function='geodesic_transform')
+    bd.done()
+    bds.append(bd)
+
+    # ---- custom transform ----------------------------------------------------------------------------------------
+    funs = ('cbrt', 'square', 'affine', 'neg', 'rowcenter', 'colindex')
+    bd = Bounded(run, 'C17/custom-sweeps', OB_CUSTOM,
+                 '6 functions; typed: values x 10 (+30 for unsigned) in %s, 2-3 RDMs x 4-5 conditions, float32 also with a missing '
+                 'entry; units: x -> s*x+t for %s; sizes: 2 conditions (1 / 3 RDMs, with / without the missing entry), 8 x 12'
+                 % (list(TYPED), [_utag(u) for u in UNITS]), function='transform')
+    i = 0
+    for fun in funs:
+        for dt in TYPED:
+            for nan in ((False, True) if dt == 'float32' else (False,)):
+                i += 1
+                case = dict(seed=100 + i, n_rdm=2 + i % 2, n_cond=4 + i % 2, fun=fun, nan=nan, dtype=dt,
+                            measure=MEASURES[i % len(MEASURES)], desc=ALL_KINDS[i % len(ALL_KINDS)])
+                if np.dtype(dt).kind in 'iu':
+                    case.update(scale=10.0, shift=30.0 if np.dtype(dt).kind == 'u' else 0.0)
+                bd.check(orc_custom, case, fun + ',typed:' + dt, function='transform')
+        for u in UNITS:
+            i += 1
+            bd.check(orc_custom, dict(seed=200 + i, n_rdm=1 + i % 3, n_cond=3 + i % 3, fun=fun, nan=bool(i % 2),
+                                      measure=MEASURES[i % len(MEASURES)], desc=ALL_KINDS[i % len(ALL_KINDS)], **u),
+                     fun + ',' + _utag(u), function='transform')
+        for n_rdm, n_cond, nan in ((1, 2, False), (3, 2, False), (3, 2, True), (8, 12, True)):
+            i += 1
+            bd.check(orc_custom, dict(seed=300 + i, n_rdm=n_rdm, n_cond=n_cond, fun=fun, nan=nan, measure=MEASURES[i % len(MEASURES)],
+                                      desc=ALL_KINDS[i % len(ALL_KINDS)]),
+                     fun + (',size:single-pair' if n_cond == 2 else ',size:large'), function='transform')
+    bd.done()
+    bds.append(bd)
+
+    # ---- descriptors: container kinds ----------------------------------------------------------------------------
+    bd = Bounded(run, 'C17/descriptors-measure-containers', OB_META,
+                 'ALL 7 transforms (rank with every tie method) x 7 source measure names x 2 further descriptor kinds (tuple-typed '
+                 'with int and str labels in non-sorted first-appearance order and an own tuple index; vector-valued 2-D arrays and '
+                 'lists of lists) x (n_rdm, n_cond) in {(1,3), (3,5), (4,6)}', exhaustive=True, function='rdm.transform')
+    for tname in TRANSFORMS:
+        pars = [None] if tname != 'rank' else [None] + list(RANK_METHODS)
+        for par in pars:
+            for measure in MEASURES:
+                for kind in DESC_KINDS_X:
+                    for n_rdm, n_cond in ((1, 3), (3, 5), (4, 6)):
+                        bd.check(orc_meta, dict(transform=tname, par=par, measure=measure, desc=kind, n_rdm=n_rdm, n_cond=n_cond),
+                                 tname + ',' + kind, function=tname + '_transform' if tname != 'custom' else 'transform')
+    bd.done()
+    bds.append(bd)
+
+    # ---- call sequences ------------------------------------------------------------------------------------------
+    seq_pars = [('rank', None), ('rank', 'min'), ('rank', 'ordinal'), ('sqrt', None), ('positive', None), ('minmax', None),
+                ('geotopological', None), ('geotopological', [0.1, 0.9]), ('geodesic', None), ('custom', 'affine'),
+                ('custom', 'rowcenter')]
+    bd = Bounded(run, 'C17/call-sequence', OB_SEQ,
+                 't(A), t(B), t(A) with B of the same shape / descriptors / measure and other dissimilarities: %d transform x parameter '
+                 'combinations x 2 source measure names x (n_rdm, n_cond) in {(1,3), (2,4), (3,5)} x %d seed(s), 6 descriptor kinds '
+                 'rotated' % (len(seq_pars), 3 if thorough else 1), function='rdm.transform')
+    i = 0
+    for tname, par in seq_pars:
+        for measure in (None, 'crossnobis'):
+            for n_rdm, n_cond in ((1, 3), (2, 4), (3, 5)):
+                for seed in range(3 if thorough else 1):
+                    i += 1
+                    bd.check(orc_call_sequence, dict(transform=tname, par=par, seed=seed, n_rdm=n_rdm, n_cond=n_cond, measure=measure,
+                                                     desc=ALL_KINDS[i % len(ALL_KINDS)]),
+                             tname, function=tname + '_transform' if tname != 'custom' else 'transform')
+    bd.done()
+    bds.append(bd)
+    bd = Bounded(run, 'C17/compare-call-sequence', OB_CSEQ,
+                 'compare(A,B), compare(A\',B\'), compare(A,B) with stacks of the same shape and other content: 5 rank-based methods + '
+                 'cosine + corr x 3 kinds of data x 4 / 6 conditions x 2 x 3 RDMs x %d seed(s)' % (3 if thorough else 1),
+                 function='compare')
+    for method in RANK_SIMS + ('cosine', 'corr'):
+        for kind in ('lattice', 'nonneg', 'distinct'):
+            for n_cond in (4, 6):
+                for seed in range(3 if thorough else 1):
+                    bd.check(orc_compare_sequence, dict(method=method, seed=seed, n_cond=n_cond, n_rdm=[2, 3], kind=kind),
+                             method + ',' + kind, function='compare')
+    bd.done()
+    bds.append(bd)
+
+    # ---- rank-based measures: units, typed stacks, sizes -----------------------------------------------------------
+    base_maps = {'lattice': ['cbrt', 'lib:rank-average', 'exp', 'lib:minmax'],
+                 'nonneg': ['sqrt', 'lib:sqrt', 'lib:rank-dense', 'lib:minmax'],
+                 'distinct': ['lib:positive', 'lib:rank-ordinal', 'arctan', 'lib:cbrt'],
+                 'close': ['scale:3.7', 'lib:rank-average', 'lib:minmax', 'shift:-3'],
+                 'tiny': ['cbrt', 'lib:sqrt', 'lib:rank-min', 'lib:minmax']}
+    typed_maps = {'lattice': [('id', 'id'), ('lib:rank-average', 'id'), ('id', 'lib:rank-dense'), ('lib:affine', 'lib:rank-min')],
+                  'nonneg': [('id', 'id'), ('lib:positive', 'lib:rank-max'), ('lib:affine', 'id'), ('lib:rank-average', 'lib:positive')],
+                  'distinct': [('id', 'id'), ('lib:rank-ordinal', 'lib:affine'), ('lib:positive', 'id')]}
+    n_seed = 4 if thorough else 1
+    bd = Bounded(run, 'C17/rank-invariance-sweeps', OB_RANKINV,
+                 '5 rank-based methods; units: scalings 1e-26 and 1e12 of the first / second / both stacks (partner maps rotated) on '
+                 'the 5 kinds of data; typed: both stacks in %s (ties+negatives, non-negative ties, tie-free) handed to compare and '
+                 'to the library transforms rank / positive / transform(fun) / sqrt (int16 and wider); sizes: 8 and 10 conditions, '
+                 '3-4 RDMs per stack; %d seed(s)' % (list(TYPED), n_seed), function='compare')
+    i = 0
+    for kind, partners in base_maps.items():
+        for method in RANK_SIMS:
+            for seed in range(n_seed):
+                for q, f in enumerate(('scale:1e-26', 'scale:1e12')):
+                    for (ff, gg) in ((f, 'id'), ('id', f), (f, partners[(q + seed + i) % len(partners)])):
+                        i += 1
+                        n_nan = 2 if (i % 3 == 0 and ff not in NO_NAN and gg not in NO_NAN) else 0
+                        bd.check(orc_rank_invariance,
+                                 dict(seed=seed, n_cond=4 + i % 3, n_rdm=[1 + i % 2, 1 + (i // 2) % 2], kind=kind, n_nan=n_nan,
+                                      f=ff, g=gg, method=method), f'{method},{kind},unit', function='compare')
+                for n_cond, n_rdm in ((8, [3, 4]), (10, [4, 1])):
+                    i += 1
+                    ff, gg = partners[i % len(partners)], partners[(i + 1) % len(partners)]
+                    n_nan = 3 if (i % 2 == 0 and ff not in NO_NAN and gg not in NO_NAN) else 0
+                    bd.check(orc_rank_invariance, dict(seed=seed, n_cond=n_cond, n_rdm=n_rdm, kind=kind, n_nan=n_nan, f=ff, g=gg,
+                                                       method=method), f'{method},{kind},size:large', function='compare')
+    for kind, pairs in typed_maps.items():
+        for method in RANK_SIMS:
+            for dt in TYPED:
+                for seed in range(n_seed):
+                    extra = [('lib:sqrt', 'id')] if (kind != 'lattice' and dt not in ('int8', 'uint8')) else []
+                    for ff, gg in pairs + extra:
+                        i += 1
+                        if not thorough and method == 'kendall' and (ff, gg) != ('id', 'id'):
+                            continue
+                        n_nan = 2 if (dt == 'float32' and i % 2) else 0
+                        bd.check(orc_rank_invariance,
+                                 dict(seed=seed, n_cond=4 + i % 3, n_rdm=[1 + i % 2, 1 + (i // 2) % 2], kind=kind, n_nan=n_nan,
+                                      f=ff, g=gg, method=method, dtype=dt), f'{method},{kind},typed:{dt}', function='compare')
+    if False:  # pending triage: integer-typed (the defect of minmax_transform seen through compare: order and ties are lost)
+        for method in RANK_SIMS:
+            for dt in INT_DTYPES:
+                for kind in ('lattice', 'nonneg', 'distinct'):
+                    bd.check(orc_rank_invariance, dict(seed=0, n_cond=5, n_rdm=[2, 2], kind=kind, n_nan=0, f='lib:minmax', g='id',
+                                                       method=method, dtype=dt), f'{method},{kind},integer-typed,lib:minmax',
+                             function='compare')
+    bd.done()
+    bds.append(bd)
+
+    # ---- cosine / correlation type: typed stacks, affine maps in extreme units, sizes ------------------------------
+    bd = Bounded(run, 'C17/scale-affine-invariance-sweeps', OB_SCALE,
+                 'cosine, corr, cosine_cov, corr_cov (sigma_k none / vector); typed: both stacks in %s, integer-valued maps on the '
+                 'typed arrays (x -> 2x, 2x+5) and float maps through transform(fun); units: corr-type under x -> a*x+b with '
+                 '(a, b) in 1e-26 .. 1e12, offsets a few a; sizes: 9 and 12 conditions, up to 6 RDMs per stack, sigma_k none / matrix; '
+                 '%d seed(s)' % (list(TYPED), n_seed), function='compare')
+    i = 0
+    for seed in range(n_seed):
+        for method, sigmas in (('cosine', ('none',)), ('corr', ('none',)), ('cosine_cov', ('none', 'vector')),
+                               ('corr_cov', ('none', 'vector'))):
+            aff = method.startswith('corr')
+            for sigma in sigmas:
+                for dt in TYPED:
+                    for via in (('array', 'lib') if dt != 'float32' else ('lib',)):
+                        i += 1
+                        if via == 'array':
+                            a1, b1, a2, b2 = 2.0, (5.0 if aff else 0.0), 1.0, 0.0
+                        else:
+                            a1, b1, a2, b2 = 0.5, (-2.0 if aff else 0.0), 7.0, (30.0 if aff and i % 2 else 0.0)
+                        bd.check(orc_scale_affine,
+                                 dict(seed=seed * 100 + 40 + i % 5, n_cond=4 + i % 3, n_rdm=[1 + i % 3, 1 + (i // 3) % 2], method=method,
+                                      sigma=sigma, a1=a1, b1=b1, a2=a2, b2=b2, via=via, ties=bool(i % 3 == 0), n_nan=0, dtype=dt),
+                                 f'{method},sigma_k={sigma},typed:{dt}', function='compare')
+                if aff:
+                    for a1, b1, a2, b2 in ((1e-20, 5e-20, 1e9, -2e9), (1e-26, -2e-26, 1e-26, 3e-26), (1e12, 3e13, 1.0, 0.0)):
+                        i += 1
+                        bd.check(orc_scale_affine,
+                                 dict(seed=seed * 100 + 50 + i % 5, n_cond=4 + i % 3, n_rdm=[2, 2], method=method, sigma=sigma, a1=a1,
+                                      b1=b1, a2=a2, b2=b2, via='lib' if i % 2 else 'array', ties=bool(i % 4 == 0),
+                                      n_nan=2 if i % 3 == 0 else 0),
+                                 f'{method},sigma_k={sigma},extreme-scale-affine', function='compare')
+            for sigma in ('none', 'matrix') if method.endswith('_cov') else ('none',):
+                for n_cond, n_rdm in ((9, [4, 5]), (12, [1, 6])):
+                    i += 1
+                    bd.check(orc_scale_affine,
+                             dict(seed=seed * 100 + 60 + i % 5, n_cond=n_cond, n_rdm=n_rdm, method=method, sigma=sigma, a1=7.0,
+                                  b1=-2.0 if aff else 0.0, a2=1e-3, b2=30.0 if aff else 0.0, via='lib' if i % 2 else 'array',
+                                  ties=bool(i % 2), n_nan=3 if sigma == 'none' else 0),
+                             f'{method},sigma_k={sigma},size:large', function='compare')
+    bd.done()
+    bds.append(bd)
+
+    # ---- evaluations: typed data / models, sizes -------------------------------------------------------------------
+    bd = Bounded(run, 'C17/evaluation-sweeps', OB_EVAL,
+                 'eval_fixed, 4 rank-based methods; typed: data and model RDMs in int16 / uint8 / int64 / float32 (non-negative with '
+                 'ties, tie-free) through rank / transform(fun) or untouched; sizes: 7 conditions, 5 data RDMs', function='eval_fixed')
+    i = 0
+    for kind in ('nonneg', 'distinct'):
+        for method in ('spearman', 'rho-a', 'tau-a', 'tau-b'):
+            for dt in ('int16', 'uint8', 'int64', 'float32'):
+                for ff, gg in (('id', 'id'), ('lib:rank-average', 'id'), ('id', 'lib:rank-dense'), ('lib:affine', 'lib:rank-average')):
+                    i += 1
+                    if not thorough and i % 2:
+                        continue
+                    bd.check(orc_evaluation, dict(seed=i % 4, n_cond=4 + i % 2, n_rdm=2 + i % 2, kind=kind, method=method, f=ff, g=gg,
+                                                  dtype=dt), f'{method},{kind},typed:{dt}', function='eval_fixed')
+            for ff, gg in (('lib:sqrt', 'lib:minmax'), ('lib:rank-average', 'lib:sqrt')):
+                i += 1
+                bd.check(orc_evaluation, dict(seed=i % 4, n_cond=7, n_rdm=5, kind=kind, method=method, f=ff, g=gg),
+                         f'{method},{kind},size:large', function='eval_fixed')
+    bd.done()
+    bds.append(bd)
+
+    # ---- another hash seed -----------------------------------------------------------------------------------------
+    batch = []
+    for q, tname in enumerate(TRANSFORMS):
+        for kind in ('scalars', 'lists', 'tuples'):
+            batch.append(['C17/descriptors-measure', dict(transform=tname, par=None, measure=MEASURES[(q + 1) % len(MEASURES)],
+                                                          desc=kind, n_rdm=3, n_cond=5)])
+        batch.append(['C17/call-sequence', dict(transform=tname, par=None, seed=q, n_rdm=2, n_cond=5, measure='crossnobis',
+                                                desc=ALL_KINDS[q % len(ALL_KINDS)])])
+    for seed in range(4):
+        batch.append(['C17/geodesic', dict(seed=seed, n_rdm=2, n_cond=4 + seed, ties=bool(seed % 2), desc='lists')])
+        batch.append(['C17/rank', dict(n_cond=6, rows=_seeded_rows(seed, 6, 3), method=RANK_METHODS[seed], desc='tuples')])
+    for q, method in enumerate(RANK_SIMS):
+        batch.append(['C17/rank-invariance', dict(seed=q, n_cond=5, n_rdm=[2, 2], kind='lattice', n_nan=2 * (q % 2), f='lib:rank-average',
+                                                  g='cbrt', method=method)])
+    for q, method in enumerate(('cosine', 'corr', 'cosine_cov', 'corr_cov')):
+        batch.append(['C17/scale-affine-invariance', dict(seed=q, n_cond=5, n_rdm=[2, 2], method=method, sigma='vector', a1=7.0, b1=0.0,
+                                                          a2=0.5, b2=0.0, via='lib', ties=True, n_nan=0)])
+    batch.append(['C17/evaluation', dict(seed=1, n_cond=5, n_rdm=3, kind='nonneg', method='tau-a', f='lib:sqrt', g='lib:rank-dense')])
+    import os
+    hashseeds = (1, 2, 31337, 4294967295) if thorough else (31337,)
+    bd = Bounded(run, 'C17/hashseed', OB_HASH,
+                 'new interpreters with PYTHONHASHSEED in %s (this process runs with %s), each running %d cases of the oracles '
+                 'descriptors-measure (str / int / tuple labels), call-sequence, geodesic, rank, rank-invariance, '
+                 'scale-affine-invariance, evaluation' % (list(hashseeds), os.environ.get('PYTHONHASHSEED', 'unset'), len(batch)),
+                 function='rdm.transform')
+    for hs in hashseeds:
+        bd.check(orc_hashseed, dict(hashseed=hs, batch=batch), 'PYTHONHASHSEED=%d' % hs, function='rdm.transform')
     bd.done()
     bds.append(bd)
     return bds
